@@ -346,7 +346,7 @@ func (t *Tokenizer) tokenizeBuffer(buf []byte, last bool) error {
 				t.mode = fracMap
 				t.num.Frac = t.num.Frac*10 + uint64(b-'0')
 				t.num.Div *= 10.0
-				if math.MaxInt64 < t.num.Frac {
+				if math.MaxInt64 < t.num.Frac || gen.BigLimit <= t.num.Div {
 					t.num.FillBig()
 					break
 				}
